@@ -210,6 +210,33 @@ var targets = []target{
 	{Group: "Keys", Mod: "coinswap", Pkg: "types", Func: "GetPoolKey", Lean: "CoinswapGetPoolKey", Opaque: true},
 	{Group: "Keys", Mod: "coinswap", Pkg: "types", Func: "GetLptDenomKey", Lean: "CoinswapGetLptDenomKey", Opaque: true},
 	// census-only: the handlers around the translated arithmetic — their rejecting guards are listed, not translated
+	{Group: "Service", Mod: "service", Pkg: "keeper", Func: "Keeper.SetEarnedFees", Lean: "Keeper.SetEarnedFees", Census: true},
+	{Group: "Service", Mod: "service", Pkg: "keeper", Func: "Keeper.SetOwnerEarnedFees", Lean: "Keeper.SetOwnerEarnedFees", Census: true},
+	{Group: "Service", Mod: "service", Pkg: "keeper", Func: "Keeper.DeleteEarnedFees", Lean: "Keeper.DeleteEarnedFees", Census: true},
+	{Group: "Service", Mod: "service", Pkg: "keeper", Func: "Keeper.DeleteOwnerEarnedFees", Lean: "Keeper.DeleteOwnerEarnedFees", Census: true},
+	{Group: "Service", Mod: "service", Pkg: "keeper", Func: "Keeper.RefundEarnedFees", Lean: "Keeper.RefundEarnedFees", Census: true},
+	{Group: "Service", Mod: "service", Pkg: "keeper", Func: "Keeper.RefundServiceFees", Lean: "Keeper.RefundServiceFees", Census: true},
+	{Group: "Service", Mod: "service", Pkg: "keeper", Func: "Keeper.FilterServiceProviders", Lean: "Keeper.FilterServiceProviders", Census: true},
+	{Group: "ServiceSched", Mod: "service", Pkg: "keeper", Func: "Keeper.InitiateRequests", Lean: "Keeper.InitiateRequests", Census: true},
+	{Group: "ServiceSched", Mod: "service", Pkg: "keeper", Func: "Keeper.SkipCurrentRequestBatch", Lean: "Keeper.SkipCurrentRequestBatch", Census: true},
+	{Group: "Oracle", Mod: "oracle", Pkg: "keeper", Func: "Keeper.dequeueAndEnqueue", Lean: "Keeper.dequeueAndEnqueue", Census: true},
+	{Group: "Oracle", Mod: "oracle", Pkg: "keeper", Func: "Keeper.SetFeed", Lean: "Keeper.SetFeed", Census: true},
+	{Group: "Oracle", Mod: "oracle", Pkg: "keeper", Func: "Keeper.deleteOldestFeedValue", Lean: "Keeper.deleteOldestFeedValue", Census: true},
+	{Group: "Oracle", Mod: "oracle", Pkg: "keeper", Func: "Keeper.Enqueue", Lean: "Keeper.Enqueue", Census: true},
+	{Group: "Oracle", Mod: "oracle", Pkg: "keeper", Func: "Keeper.Dequeue", Lean: "Keeper.Dequeue", Census: true},
+	{Group: "Random", Mod: "random", Pkg: "", Func: "BeginBlocker", Lean: "BeginBlocker", Census: true},
+	{Group: "Random", Mod: "random", Pkg: "keeper", Func: "Keeper.SetRandom", Lean: "Keeper.SetRandom", Census: true},
+	{Group: "Random", Mod: "random", Pkg: "keeper", Func: "Keeper.EnqueueRandomRequest", Lean: "Keeper.EnqueueRandomRequest", Census: true},
+	{Group: "Random", Mod: "random", Pkg: "keeper", Func: "Keeper.DequeueRandomRequest", Lean: "Keeper.DequeueRandomRequest", Census: true},
+	{Group: "Random", Mod: "random", Pkg: "keeper", Func: "Keeper.SetOracleRandRequest", Lean: "Keeper.SetOracleRandRequest", Census: true},
+	{Group: "Random", Mod: "random", Pkg: "keeper", Func: "Keeper.DeleteOracleRandRequest", Lean: "Keeper.DeleteOracleRandRequest", Census: true},
+	{Group: "Farm", Mod: "farm", Pkg: "", Func: "EndBlocker", Lean: "EndBlocker", Census: true},
+	{Group: "Htlc", Mod: "htlc", Pkg: "", Func: "BeginBlocker", Lean: "BeginBlocker", Census: true},
+	{Group: "Token", Mod: "token", Pkg: "keeper", Func: "erc20Hook.PostTxProcessing", Lean: "erc20Hook.PostTxProcessing", Census: true},
+	{Group: "Token", Mod: "token", Pkg: "keeper", Func: "Keeper.SwapFromERC20", Lean: "Keeper.SwapFromERC20", Census: true},
+	{Group: "Token", Mod: "token", Pkg: "keeper", Func: "Keeper.SwapToERC20", Lean: "Keeper.SwapToERC20", Census: true},
+	{Group: "Token", Mod: "token", Pkg: "keeper", Func: "msgServer.SwapFromERC20", Lean: "msgServer.SwapFromERC20", Census: true},
+	{Group: "Token", Mod: "token", Pkg: "keeper", Func: "msgServer.SwapToERC20", Lean: "msgServer.SwapToERC20", Census: true},
 	{Group: "Coinswap", Mod: "coinswap", Pkg: "keeper", Func: "Keeper.Swap", Lean: "Keeper.Swap", Census: true},
 	{Group: "Coinswap", Mod: "coinswap", Pkg: "keeper", Func: "Keeper.swapCoins", Lean: "Keeper.swapCoins", Census: true},
 	{Group: "Coinswap", Mod: "coinswap", Pkg: "keeper", Func: "Keeper.CreatePool", Lean: "Keeper.CreatePool", Census: true},
@@ -1479,8 +1506,59 @@ func guardCensus(p *packages.Package, fd *ast.FuncDecl, lean string) (out []stri
 	return
 }
 
+// effectCensus: every statement of a target function that is executed for its effect — a call whose result is dropped
+// (store and bank writes, queue moves, hooks; events and log lines are left out) and every assignment to a field of a
+// record — as "<Lean name>: d<nesting depth> <source text>" in source order. The nesting depth is the number of
+// enclosing blocks below the function body, so a write that moves into or out of a branch or a loop differs.
+func effectCensus(p *packages.Package, fd *ast.FuncDecl, lean string) (out []string) {
+	src := func(n ast.Node) string {
+		var b strings.Builder
+		printer.Fprint(&b, p.Fset, n)
+		return strings.Join(strings.Fields(b.String()), " ")
+	}
+	depth := 0
+	var stack []ast.Node
+	ast.Inspect(fd.Body, func(n ast.Node) bool {
+		if n == nil {
+			if _, ok := stack[len(stack)-1].(*ast.BlockStmt); ok {
+				depth--
+			}
+			stack = stack[:len(stack)-1]
+			return true
+		}
+		stack = append(stack, n)
+		add := func(n ast.Node) {
+			out = append(out, fmt.Sprintf("%s: d%d %s", lean, depth-1, src(n)))
+		}
+		switch x := n.(type) {
+		case *ast.BlockStmt:
+			depth++
+		case *ast.ExprStmt:
+			if c, ok := x.X.(*ast.CallExpr); ok {
+				t := src(c.Fun)
+				if !strings.Contains(t, "EmitEvent") && !strings.Contains(t, "Logger") && t != "panic" {
+					add(x)
+				}
+			}
+		case *ast.AssignStmt:
+			for _, l := range x.Lhs {
+				if _, ok := l.(*ast.SelectorExpr); ok {
+					add(x)
+					break
+				}
+			}
+		case *ast.IncDecStmt:
+			if _, ok := x.X.(*ast.SelectorExpr); ok {
+				add(x)
+			}
+		}
+		return true
+	})
+	return
+}
+
 func writeGroup(group, outLean string, load func(string) []*packages.Package) {
-	var defs, untranslated, names, guards []string
+	var defs, untranslated, names, guards, effects []string
 	knownGo := map[string]string{}
 	for _, tg := range targets {
 		if tg.Group != group {
@@ -1502,6 +1580,7 @@ func writeGroup(group, outLean string, load func(string) []*packages.Package) {
 			continue
 		}
 		guards = append(guards, guardCensus(pkg, fd, tg.Lean)...)
+		effects = append(effects, effectCensus(pkg, fd, tg.Lean)...)
 		if tg.Census {
 			continue
 		}
@@ -1547,6 +1626,13 @@ func writeGroup(group, outLean string, load func(string) []*packages.Package) {
 	}
 	sb.WriteString("]\n\n/-- every rejecting guard of the translated functions, in source order -/\ndef guards : List String := [")
 	for i, n := range guards {
+		if i > 0 {
+			sb.WriteString(", ")
+		}
+		sb.WriteString(leanStr(n))
+	}
+	sb.WriteString("]\n\n/-- every statement of the translated functions executed for its effect, with its nesting depth, in source order -/\ndef effects : List String := [")
+	for i, n := range effects {
 		if i > 0 {
 			sb.WriteString(", ")
 		}
